@@ -1,0 +1,34 @@
+//go:build verif
+
+package verifhook
+
+// Enabled reports whether the hooks are compiled in.
+const Enabled = true
+
+var (
+	// OnIO is called immediately before a back-end file operation.
+	// n is the byte count of a write or the new size of a truncate.
+	OnIO func(op IOOp, path string, n int64)
+	// OnFS is called immediately before a directory-level operation.
+	OnFS func(op FSOp, a, b string)
+	// OnPoint is called at named points inside engine operations.
+	OnPoint func(name string, key []byte)
+)
+
+func IO(op IOOp, path string, n int64) {
+	if f := OnIO; f != nil {
+		f(op, path, n)
+	}
+}
+
+func FS(op FSOp, a, b string) {
+	if f := OnFS; f != nil {
+		f(op, a, b)
+	}
+}
+
+func Point(name string, key []byte) {
+	if f := OnPoint; f != nil {
+		f(name, key)
+	}
+}
